@@ -238,7 +238,9 @@ def _eql_expression_to_polyhedral_terms(e: PolyhedralSyntaxEqlExpression) -> Lis
 def _check_absolute_terms(str_rep: str, absolute_term_list: List[PolyhedralSyntaxAbsoluteTerm]) -> None:
     negative_absolute_terms: List[str] = []
     for at in absolute_term_list:
-        if not at.is_positive():
+        # only a strictly negative coefficient makes the relation non-convex: a coefficient of zero
+        # (written so, or left by terms that cancel, as in |x| - |x|) contributes nothing
+        if at.coefficient is not None and at.coefficient < 0:
             negative_absolute_terms.append(str(at))
     if len(negative_absolute_terms) > 0:
         raise PolyhedralSyntaxConvexException(str_rep, negative_absolute_terms)
